@@ -326,14 +326,14 @@ def analyse_function(ctx, ef, fi, param='self', consts=None):
         for construct, how in srcs:
             if mut and flow.exception_leaves(node):
                 line = min(d['$mut'][1] for d in mut)
-                findings.append((construct, how, f'the target tree was already modified (first mutation at line {line})'))
-            elif tmp:
+                findings.append((construct, how, f'the target tree was already modified (first mutation at line {line})', 'after-mutation'))
+            if tmp:
                 held = set()
                 for d in tmp:
                     held |= set(flow.tmp_held(d))
-                # a release evaluated at this very node (`_restore(self, state)` as part of it) does not count as before
                 if flow.exception_leaves(node, held):
-                    findings.append((construct, how, f'the temporary normalisation {sorted(held)} is in force and no handler restores it'))
+                    findings.append((construct, how, f'the temporary normalisation {sorted(held)} is in force and no handler restores it',
+                                     'unrestored:' + ','.join(sorted(held))))
     return findings, n_checked
 
 
@@ -388,7 +388,7 @@ def check_validate_then_mutate(ctx, ef):
     def work(fi):
         consts = ef.caller_consts(fi)
         findings, n = analyse_function(ctx, ef, fi, 'self', consts)
-        return [(norm(c, 90), getattr(c, 'lineno', 0), how, state) for c, how, state in findings], n, {k: repr(v) for k, v in consts.items()}
+        return [(norm(c, 80) + ' @' + tag, getattr(c, 'lineno', 0), how, state) for c, how, state, tag in findings], n, {k: repr(v) for k, v in consts.items()}
     from ..engine import parallel_map
     results = parallel_map(work, fns)
     for fi, (findings, n, consts) in zip(fns, results):
